@@ -75,6 +75,8 @@ type ppFile struct {
 	Paths     [][]ppStep `json:"paths"`
 	MaxID     int        `json:"maxid"`
 	MaxStream int        `json:"maxstream"`
+	UDP       bool       `json:"udp"`   // datagram framing (a UDP upstream): no length prefix, the wire ID is the first two octets
+	Mixed     bool       `json:"mixed"` // every other behaviour with datagram framing
 }
 
 var errPPDial = errors.New("verif: scripted dial failure")
@@ -88,6 +90,7 @@ type ppRead struct {
 }
 
 type ppConn struct {
+	udp    bool
 	id     int
 	r      *ppRun
 	mu     sync.Mutex
@@ -135,8 +138,12 @@ func (c *ppConn) Write(p []byte) (int, error) {
 		c.r.note("short frame written: %d octets", len(p))
 		return 0, errPPIO
 	}
-	wid := int(binary.BigEndian.Uint16(p[2:]))
-	c.r.parkedWrite(c.id, wid, p)
+	msg := p[2:]
+	if c.udp {
+		msg = p
+	}
+	wid := int(binary.BigEndian.Uint16(msg))
+	c.r.parkedWrite(c.id, wid, msg)
 	ok := <-c.wchan(wid)
 	if !ok {
 		return 0, errPPIO
@@ -175,6 +182,7 @@ func (c *ppConn) Read(p []byte) (int, error) {
 // ---------------------------------------------------------------- one run
 
 type ppRun struct {
+	udp       bool
 	t         *transport.PipelineTransport
 	nex, ncon int
 	base      int // wire id = base + model id
@@ -212,8 +220,8 @@ func (r *ppRun) note(f string, a ...any) {
 	r.mu.Unlock()
 }
 
-func newPPRun(nex, ncon, maxid, maxstream int) *ppRun {
-	r := &ppRun{nex: nex, ncon: ncon, base: 65536 - (maxid + 1), permits: map[string]chan struct{}{}, ctxEx: map[any]int{}}
+func newPPRun(nex, ncon, maxid, maxstream int, udp bool) *ppRun {
+	r := &ppRun{udp: udp, nex: nex, ncon: ncon, base: 65536 - (maxid + 1), permits: map[string]chan struct{}{}, ctxEx: map[any]int{}}
 	r.conns, r.pcs, r.dialCh = make([]*ppConn, ncon), make([]any, ncon), make([]chan bool, ncon)
 	for i := range r.dialCh {
 		r.dialCh[i] = make(chan bool, 1)
@@ -227,7 +235,7 @@ func newPPRun(nex, ncon, maxid, maxstream int) *ppRun {
 	}
 	r.cancels = make([]context.CancelCauseFunc, nex)
 	r.t = transport.NewPipelineTransport(transport.PipelineOpts{DialContext: r.dial, DialTimeout: time.Hour, IdleTimeout: time.Hour,
-		IsTCP: true, MaxConcurrentQuery: maxstream})
+		IsTCP: !udp, MaxConcurrentQuery: maxstream})
 	return r
 }
 
@@ -251,7 +259,7 @@ func (r *ppRun) dial(ctx context.Context) (net.Conn, error) {
 		r.mu.Unlock()
 		return nil, errPPDial
 	}
-	c := &ppConn{id: k, r: r, done: make(chan struct{}), rcmd: make(chan ppRead, 1), wcmd: map[int]chan bool{}}
+	c := &ppConn{udp: r.udp, id: k, r: r, done: make(chan struct{}), rcmd: make(chan ppRead, 1), wcmd: map[int]chan bool{}}
 	r.mu.Lock()
 	r.conns[k-1] = c
 	r.mu.Unlock()
@@ -300,7 +308,7 @@ func (r *ppRun) parkedWrite(conn, wid int, p []byte) {
 		r.notes = append(r.notes, fmt.Sprintf("frame with wire id %d written on connection %d: no exchange owns that id", wid-r.base, conn))
 		return
 	}
-	if id, ex := parseQuery(p[2:]); ex != e || id != wid {
+	if id, ex := parseQuery(p); ex != e || id != wid {
 		r.notes = append(r.notes, fmt.Sprintf("frame with wire id %d on connection %d carries the question of exchange %d, the id belongs to exchange %d", wid-r.base, conn, ex, e))
 	}
 	r.pc[e-1] = "write"
@@ -643,9 +651,12 @@ func (r *ppRun) do(a ppAct, want ppState) {
 		binary.BigEndian.PutUint32(ip, uint32(a.Tok))
 		m.Answer = append(m.Answer, &dns.A{Hdr: dns.RR_Header{Name: m.Question[0].Name, Rrtype: dns.TypeA, Class: 1, Ttl: 5}, A: ip})
 		w, _ := m.Pack()
-		f := make([]byte, 2+len(w))
-		binary.BigEndian.PutUint16(f, uint16(len(w)))
-		copy(f[2:], w)
+		f := w
+		if !r.udp {
+			f = make([]byte, 2+len(w))
+			binary.BigEndian.PutUint16(f, uint16(len(w)))
+			copy(f[2:], w)
+		}
 		r.conns[a.C-1].rcmd <- ppRead{frame: f}
 	case "Send":
 		r.grant(fmt.Sprint("send:", a.C))
@@ -767,7 +778,7 @@ func modePReplay(file string, stepTimeout time.Duration) {
 		if diverged >= 25 {
 			break
 		}
-		r := newPPRun(nex, ncon, f.MaxID, f.MaxStream)
+		r := newPPRun(nex, ncon, f.MaxID, f.MaxStream, f.UDP || (f.Mixed && pi%2 == 1))
 		ppMu.Lock()
 		ppCur = r
 		ppMu.Unlock()
